@@ -45,7 +45,8 @@ def jobs(tier):
     jobs = []
 
     def add(h, cfg, **kw):
-        jobs.append(Job(U + h, cfg, pkg_key='bounds', block=2,
+        jobs.append(Job(U + h, cfg, pkg_key='bounds',
+                        block=kw.get('block', 2),
                         max_paths=kw.get('max_paths', 8000)))
     for unit in (True, False):
         add('split', dict(d=1, npm=2, sizes=[4], unit=unit))
@@ -57,7 +58,7 @@ def jobs(tier):
     for sizes in ([2], [2, 3], [2, 3, 2], [4, 2, 2]):
         add('trim', dict(d=1, npm=2, sizes=sizes, cache=1))
         add('trim', dict(d=1, npm=2, sizes=sizes, unit=False))
-    add('sample', dict(d=1, npm=2, sizes=[2, 2], n=1))
+    add('sample', dict(d=1, npm=2, sizes=[2, 2], n=1), block=1)
     add('sample', dict(d=1, npm=2, sizes=[2], n=2, cache=1, unit=False))
     if thorough:
         add('split', dict(d=1, npm=2, sizes=[5]), max_paths=30000)
